@@ -33,6 +33,9 @@ type Case struct {
 	PreGen  string   `json:"pregen,omitempty"` // state of the destination of the LAST .fo argument: "" (sentinel) | dir | dangling | devfull
 	Mutator []string `json:"mutators,omitempty"`
 	Seed    string   `json:"seed,omitempty"`
+	// MustContain: text that the gen file of the LAST .fo argument has to contain when fc exits 0 (used
+	// where the input is built by the harness and ends with a known definition: "completely written")
+	MustContain string `json:"must_contain,omitempty"`
 }
 
 const sentinel = "// SENTINEL\n"
@@ -160,6 +163,9 @@ func checkWith(e *vt.Env, fc string, c Case) (verdict, error) {
 			}
 			if string(b) == sentinel {
 				return verdict{}, fmt.Errorf("fc exits 0 but %s was not written (still the sentinel)\n%s", filepath.Base(g), describe(c))
+			}
+			if last && c.MustContain != "" && !strings.Contains(string(b), c.MustContain) {
+				return verdict{}, fmt.Errorf("fc exits 0 but %s is incomplete: the translation of the last definition of the input (%q) is missing\n%s", filepath.Base(g), c.MustContain, describe(c))
 			}
 		}
 		// completeness: a second run in a fresh directory writes the same bytes
@@ -861,8 +867,9 @@ type ScaleCase struct {
 func (sc ScaleCase) toCase() (Case, error) {
 	for _, tp := range scaleTpls {
 		if tp.name == sc.Template {
-			body := "package main\n\nimport frt\n\n" + tp.make(sc.N)
-			return Case{Files: []File{{Name: "scale.fo", Content: []byte(body)}}, Args: []string{"@foi", "scale.fo"}, Mutator: []string{"scale:" + tp.name}}, nil
+			// every template ends with one more definition: an accepted input must have been translated to its end
+			body := "package main\n\nimport frt\n\n" + tp.make(sc.N) + "\nlet zzLast () = 7\n"
+			return Case{Files: []File{{Name: "scale.fo", Content: []byte(body)}}, Args: []string{"@foi", "scale.fo"}, Mutator: []string{"scale:" + tp.name}, MustContain: "func zzLast("}, nil
 		}
 	}
 	return Case{}, fmt.Errorf("unknown scale template %q", sc.Template)
